@@ -212,7 +212,7 @@ def run_shard(ctx):
 
     n = P["n_cases"]
     drive(ctx, top_cases(), P.get("n_top", 3), one, "top")
-    forces = ["cond", "scan", "vmap", "indicator", "vdist", "call", None, "detcall"]
+    forces = ["cond", "scan", "vmap", "indicator", "vdist", "call", "condm", "detcall"]
     drive(ctx, cases(False, forces[ctx.shard % len(forces)]), n - n // 3, one, "cont")
     drive(ctx, cases(True, forces[(ctx.shard + 1) % len(forces)]), n // 3, one, "disc")
     nk = modelir.NEST_KINDS  # combinators applied directly to combinators
